@@ -107,6 +107,8 @@ func (c *c20) roundTrip(r *fw.Rec, rng *rand.Rand, cs fw.Case) {
 }
 
 var c20RTDirected = []string{
+	// selectors, indexes, calls and slices applied directly to number literals
+	"a := 1 .y\nb := 0x1F .z\nc := 1.5.w\nd := 2[0]\ne := 3 .k.j\nf := (4).m\ng := 5 .n[0]\nh := 7 .f(1)\ni := -8 .q\nj := 1e3.r\nk := 0b11 .s\nl := 9[1:2]\n",
 	"x := - -a1\ny := + +2\nz := 1 - - -3\nw := !-x\nv := - (-y)\nu := a - -b\n",
 	"a := [1, 2][0]\nb := {k: 1}.k\nc := func(p, ...q) { return p }(1, [2]...)\nd := a ? b : c ? a : b\ne := (a ? b : c) ? a : b\n",
 	"for i := 0; i < 3; i++ { if i == 1 { continue } else if i == 2 { break } else { x := i } }\nfor k, v in {a: 1} { y := k }\nfor v in [1] { z := v }\nfor { break }\nfor a < 3 { a++ }\n",
